@@ -277,7 +277,8 @@ func tameMax(what string, b []byte, max int) []byte {
 	return b
 }
 
-func emitDec(g *GenCtx, what string, enc []byte, heavy bool) {
+func emitDec(g0 *GenCtx, what string, enc []byte, heavy bool) {
+	g := &decEmitter{g0, what}
 	op := what + "-dec"
 	g.Op("%s %s", op, HexOrDash(enc))
 	g.Op("%s %s", op, HexOrDash(tame(what, append(append([]byte{}, enc...), g.R.Bytes(1+g.R.Intn(5))...))))
@@ -327,6 +328,23 @@ func emitDec(g *GenCtx, what string, enc []byte, heavy bool) {
 		}
 		g.Op("%s %s", op, HexOrDash(tame(what, m)))
 	}
+}
+
+// decEmitter drops frame-decoder inputs of 10 or 11 bytes: the muxer half of C11 repairs
+// fromBytes so that such a buffer is a zero-padded initiate frame, which is outside the
+// 12-byte-header format C18 is about
+type decEmitter struct {
+	*GenCtx
+	what string
+}
+
+func (d *decEmitter) Op(format string, a ...any) {
+	if d.what == "frame" && len(a) == 2 {
+		if h, ok := a[1].(string); ok && (len(h) == 20 || len(h) == 22) {
+			return
+		}
+	}
+	d.GenCtx.Op(format, a...)
 }
 
 func realEnc(f func() string) []byte {
@@ -529,6 +547,9 @@ func gen(g *GenCtx) {
 	for i := scale(g, 200, 50000); i > 0; i-- {
 		b := r.Bytes(r.Intn(48))
 		for _, w := range []string{"str", "name", "chunk", "cert", "intent", "ag", "frame", "iframe", "exec", "pf"} {
+			if w == "frame" && (len(b) == 10 || len(b) == 11) {
+				continue
+			}
 			g.Op("%s-dec %s", w, HexOrDash(tame(w, append([]byte{}, b...))))
 		}
 	}
